@@ -214,6 +214,137 @@ def run(tier, seed, replay=None):
                     all_extra.append(follow)
                 except OSError as e:
                     rep.fail("C10: %s: %s" % (what, e), {"kind": "failing-input", "scenario": what})
+        # a hand-written client of the http listener's UDP mode (CONNECT + Proxy-Protocol: udp, frames inline on the same
+        # connection): redproxy's own connector waits for the 200 before its first frame, a client need not.  The frames
+        # are produced by the MODEL's encoder (Frames.v) and the replies decoded by the model's stream frame reader.
+        import codec_cases as cdc
+        tgt = cdc.tgt_v4(socket.inet_aton(LOOP), w.origin.port)
+
+        def raw_session(m, mode, sizes, attempt):
+            pays = [(b"raw-%d-%d-%d-" % (m, attempt, i)).ljust(sz, b"r")[:sz] + bytes([i]) for i, sz in enumerate(sizes)]
+            enc = run_model(model, ["frame_encode 0 %s %s" % (tgt, p_.hex()) for p_ in pays])
+            if not all(e.startswith("OK W=") for e in enc):
+                return pays, "model", str(enc)[:300]
+            frames = [bytes.fromhex(e[5:]) for e in enc]
+            npipe = 0 if mode.startswith("waits") else 3 if mode.startswith("three") else 1
+            req = ("CONNECT %s:%d HTTP/1.1\r\nHost: x\r\nProxy-Protocol: udp\r\nProxy-Channel: inline\r\n\r\n" % (LOOP, w.origin.port)).encode()
+            got_raw, err = b"", None
+            try:
+                c = socket.create_connection((LOOP, w.p2l["http"]), timeout=5)
+                c.setsockopt(socket.IPPROTO_TCP, socket.TCP_NODELAY, 1)
+                c.sendall(req + b"".join(frames[:npipe]))
+                head = e2e.recv_until(c, b"\r\n\r\n")
+                i = head.find(b"\r\n\r\n")
+                if not head.startswith(b"HTTP/1.1 200"):
+                    err = "refused: %r" % head[:60]
+                else:
+                    got_raw = head[i + 4:]
+                    for f in frames[npipe:]:
+                        time.sleep(0.05)
+                        c.sendall(f)
+                    c.settimeout(1.5)
+                    want_bytes = sum(len(f) for f in frames)
+                    try:
+                        while len(got_raw) < want_bytes:
+                            d = c.recv(65536)
+                            if not d:
+                                break
+                            got_raw += d
+                    except socket.timeout:
+                        pass
+                e2e.close_quiet(c)
+            except OSError as e:
+                err = str(e)
+            time.sleep(0.2)
+            dec = run_model(model, ["frame_stream %s" % (got_raw.hex() or "-")])[0]
+            back = [bytes.fromhex(x.split("/")[3]) for x in dec.split(",") if x.startswith("F/") and len(x.split("/")) > 3]
+            at = collections.Counter(d for t, d, a in w.origin.rx)
+            once = [len(p_) for p_ in pays if at[p_] == 1]
+            if err or len(once) != len(pays) or collections.Counter(back) != collections.Counter(pays):
+                return pays, "fail", "%s; datagrams of %s bytes sent, %s reached the origin exactly once, %d of %d replies came back" % (
+                    err or "handshake ok", [len(p_) for p_ in pays], once, len([b_ for b_ in back if b_ in pays]), len(pays))
+            return pays, "ok", ""
+        RAW_MODES = (("waits for the 200", [17, 900]), ("first frame in the same write as the request", [17, 23]),
+                     ("three frames in the same write as the request", [5, 1200, 64, 31]),
+                     ("first frame of 20000 bytes in the same write as the request", [20000, 17]),
+                     ("first frame of 9000 bytes in the same write as the request", [9000, 33, 34]))
+        for m, (mode, sizes) in enumerate(RAW_MODES):
+            n_eval += 1
+            what = "HTTP CONNECT udp/inline client that %s" % mode
+            for attempt in (0, 1):              # a loopback datagram may be dropped: only a failure that repeats is reported
+                pays, res, msg = raw_session(m, mode, sizes, attempt)
+                all_extra += pays
+                if res != "fail":
+                    break
+            if res == "model":
+                rep.broken_obligation("correspondence C10: the model's frame encoder refuses a plain frame", msg)
+                break
+            if res == "fail":
+                rep.fail("C10: %s: %s" % (what, msg), {"kind": "failing-input", "scenario": what, "sizes": sizes})
+            dist["raw-http-inline"] += len(sizes)
+        # sessions that share one QUIC connection, each sending datagrams larger than one QUIC packet at the same time: the
+        # fragments of different sessions interleave on the connection and meet in the peer's single reassembly table.
+        # A datagram that arrives with another session's bytes in it, or at a client that did not send it, is corruption,
+        # not loss: it is reported without a second try.  (Plain loss under load is excused as everywhere in this check.)
+        storm_stats = []
+        for pth in ("c_quic_dgram", "c_quic_inline"):
+            n_storm = 5 if tier == "quick" else 8
+            per = 120 if tier == "quick" else 300
+            for attempt in (0, 1, 2):
+                res = {}
+
+                def storm_session(k, pth=pth, attempt=attempt):
+                    s_ = socket.socket(socket.AF_INET, socket.SOCK_DGRAM)
+                    s_.bind((LOOP, 0))
+                    s_.settimeout(0.002)
+                    sent, got = [], []
+                    try:
+                        for i in range(per):
+                            p_ = payload("storm-%s-%d-%d" % (pth, attempt, k), i, 2500 + 700 * (k % 3))
+                            s_.sendto(p_, (LOOP, w.rev[pth]))
+                            sent.append(p_)
+                            t_end = time.time() + 0.004
+                            while time.time() < t_end:
+                                try:
+                                    got.append(s_.recvfrom(70000)[0])
+                                except socket.timeout:
+                                    pass
+                        t_end = time.time() + 3.0
+                        s_.settimeout(0.2)
+                        while time.time() < t_end and len(got) < len(sent):
+                            try:
+                                got.append(s_.recvfrom(70000)[0])
+                            except socket.timeout:
+                                pass
+                    finally:
+                        s_.close()
+                    res[k] = (sent, got)
+                with concurrent.futures.ThreadPoolExecutor(n_storm) as ex:
+                    list(ex.map(storm_session, range(n_storm)))
+                n_eval += 1
+                mine = set(p_ for k in res for p_ in res[k][0])
+                all_extra += list(mine)
+                marker = ("<storm-%s-%d-" % (pth, attempt)).encode()
+                at = collections.Counter(d for t, d, a in w.origin.rx if d.startswith(marker))
+                corrupt = [d for d in at if d not in mine]
+                dup = [d for d in at if d in mine and at[d] > 1]
+                foreign = [(k, g) for k in res for g in res[k][1] if g not in res[k][0]]
+                lost = sum(1 for p_ in mine if at[p_] == 0)
+                noreply = sum(1 for k in res for p_ in res[k][0] if p_ not in res[k][1])
+                storm_stats.append(dict(path=pth, attempt=attempt, sessions=n_storm, datagrams=len(mine), corrupt=len(corrupt), duplicated=len(dup), foreign_replies=len(foreign), lost=lost, no_reply=noreply))
+                dist["storm|" + pth] += len(mine)
+                all_extra += corrupt                    # reported here, not again as a stray below
+                what = "%d concurrent reverse-UDP sessions via %s, %d datagrams of 2500-3900 bytes each (several QUIC packets per datagram)" % (n_storm, pth, per)
+                rp = {"kind": "failing-input", "scenario": what, "stats": storm_stats[-1]}
+                if corrupt or foreign or dup:
+                    ex_ = corrupt[0] if corrupt else (foreign[0][1] if foreign else dup[0])
+                    rep.fail("C10: %s: %d datagram(s) reached the origin with a payload nobody sent (a session's head with other bytes behind it), %d reached it twice, %d repl(ies) went to a client that never sent that payload; e.g. %r (%d bytes)" % (
+                        what, len(corrupt), len(dup), len(foreign), ex_[:24], len(ex_)), rp)
+                    break
+                if not lost and not noreply:
+                    break
+                if attempt == 2:
+                    rep.fail("C10: %s: in three runs out of three datagrams were lost (last run: %d never reached the origin, %d replies never came back)" % (what, lost, noreply), rp)
         alive = w.alive()
         rx = list(w.origin.rx)
         try:
@@ -257,8 +388,8 @@ def run(tier, seed, replay=None):
             rep.fail("C10: the origin received a datagram no client sent: %r (%d bytes, %d times)" % (d[:40], len(d), c), {"kind": "failing-input", "scenario": "stray datagram at the origin"})
     rep.coverage.update({
         "evaluations": n_eval, "distinct_nontrivial": len(shapes),
-        "rule": "sessions: reverse UDP client, SOCKS5 UDP association with IPv4 destination, with domain destination (through hops) x paths %s, 3-8 datagrams of 1..8000 bytes each with gaps 0/10/50 ms, 10 sessions in flight at a time with session-tagged payloads; one empty datagram" % uw.PATHS,
-        "input_distribution": dict(dist), "datagrams_at_origin": len(rx), "sessions_retried": retried,
+        "rule": "sessions: reverse UDP client, SOCKS5 UDP association with IPv4 destination, with domain destination (through hops) x paths %s, 3-8 datagrams of 1..8000 bytes each with gaps 0/10/50 ms, 10 sessions in flight at a time with session-tagged payloads; one empty datagram; a hand-written HTTP CONNECT udp/inline client (frames from the model's encoder) that waits for the 200 or sends its first 1-3 frames (17..20000 bytes) in the same write as the request; 5 (thorough 8) concurrent sessions on one QUIC connection (datagram and inline mode) sending 120 (300) datagrams of 2500-3900 bytes each every 4 ms" % uw.PATHS,
+        "input_distribution": dict(dist), "datagrams_at_origin": len(rx), "sessions_retried": retried, "concurrent_large_datagram_runs": storm_stats,
     })
     rep.assumptions = ["loopback UDP and QUIC datagrams may drop under concurrent load: a failing session is repeated alone twice and reported only if it fails every time", "the RSV bytes of the SOCKS5 UDP reply header (05 03 instead of 00 00) are not part of the property"]
     if broken and not rep.violations:
